@@ -240,3 +240,38 @@ func VX_C25_pop_ctx() {
 		vxAssert(ch.Length() == 1, "pop-ctx/a-completed-push-is-not-lost")
 	}
 }
+
+// two consumers drain a closed channel that holds one value: exactly one of them gets it, the
+// other one the closed-channel error (context-aware pops and iterator steps)
+func VX_C25_two_consumers_closed() {
+	ch := NewChannelOfValue(1 + vxSplit("cap", 2))
+	ctx := &vxCtx{done: make(chan struct{})}
+	v := vxInt64("v")
+	ch.Push(SmallInt(v).ToValue())
+	ch.Close()
+	useNext := vxSplit("next", 2) == 1
+	var got [2]Value
+	var errs [2]Value
+	pop := func(i int) {
+		if useNext {
+			got[i], errs[i] = ch.NextValueCtx(ctx)
+		} else {
+			got[i], errs[i] = ch.PopCtx(ctx)
+		}
+	}
+	vxGo(func() { pop(0) })
+	vxGo(func() { pop(1) })
+	vxJoin()
+	delivered := 0
+	for i := 0; i < 2; i++ {
+		if errs[i].IsUndefined() {
+			delivered++
+			vxAssert(got[i].IsSmallInt() && int64(got[i].AsSmallInt()) == v, "two-consumers/only-pushed-values-are-delivered")
+		} else if useNext {
+			vxAssert(errs[i].IsInlineSymbol(), "two-consumers/the-loser-sees-the-end-of-the-channel")
+		} else {
+			vxAssert(errs[i] == ChannelClosedPopError.ToValue(), "two-consumers/the-loser-gets-the-closed-channel-error")
+		}
+	}
+	vxAssert(delivered == 1, "two-consumers/the-value-is-delivered-exactly-once")
+}
